@@ -288,6 +288,12 @@ def threaded_keys(tape, clock):
         i = R.InputSpec(0)
         i.npos = 2
         i.kind = tape.choice(['instance', 'static'])
+        if tape.draw(2) == 1:
+            # an explicit capture selection, declared in an order that is not the positional one
+            base = 1 if i.kind != 'static' else 0
+            i.capture = [CapturedArg(base + 1, 'p1'), CapturedArg(base, 'p0')]
+            i.capture_desc = 'p1@%d,p0@%d' % (base + 1, base)
+            run.probe('capture_selection_used_by_two_threads')
         i.pool = [((7 + n, 'k%d' % n), {}) for n in range(3)]
         for (a, k) in i.pool:
             for dep in ('d0', 'd1'):
